@@ -11,7 +11,7 @@ def BytesOK (mem : List Nat) : Prop := ∀ x ∈ mem, x < 256
 /-- C17.geometry_valid_iff_accepted: the (repaired) constructor returns an allocator exactly for
 valid geometries with a buffer that holds at least one segment (and divides evenly when `fit`),
 and ErrInvalid otherwise — never a panic, never a malformed allocator. -/
-theorem geometry_valid_iff_accepted (P : Nat) (hP : 0 < P) (bs : Int) (mem : List Nat) (fit : Bool) :
+theorem geometry_valid_iff_accepted (P : Nat) (_hP : 0 < P) (bs : Int) (mem : List Nat) (fit : Bool) :
     (∃ b, newBlocks P bs mem fit = .ok b ∧ 0 < b.bs ∧ (b.bs : Int) = bs ∧ 1 ≤ b.segs ∧
         b.segs * b.segmSize ≤ mem.length ∧ (fit = true → b.segs * b.segmSize = mem.length) ∧ b.mem = mem) ∧
       ValidGeom P bs ∧ (8 * bs.toNat + 1) * bs.toNat ≤ mem.length ∧
@@ -19,55 +19,160 @@ theorem geometry_valid_iff_accepted (P : Nat) (hP : 0 < P) (bs : Int) (mem : Lis
     ∨
     newBlocks P bs mem fit = .error .invalid ∧
       ¬ (ValidGeom P bs ∧ (8 * bs.toNat + 1) * bs.toNat ≤ mem.length ∧
-        (fit = true → mem.length % ((8 * bs.toNat + 1) * bs.toNat) = 0)) :=
-  sorry
+        (fit = true → mem.length % ((8 * bs.toNat + 1) * bs.toNat) = 0)) := by
+  by_cases hv : ValidGeom P bs
+  · have hpos : 0 < bs := hv.1
+    obtain ⟨n, rfl⟩ : ∃ n : Nat, bs = n := ⟨bs.toNat, by omega⟩
+    have hn : 0 < n := by omega
+    rw [newBlocks_of_valid P n mem fit hv]
+    simp only [Int.toNat_natCast]
+    have hZ : 0 < (8 * n + 1) * n := Nat.mul_pos (by omega) hn
+    by_cases hsz : mem.length < (8 * n + 1) * n ∨ (fit = true ∧ mem.length % ((8 * n + 1) * n) ≠ 0)
+    · right
+      rw [if_pos hsz]
+      refine ⟨rfl, ?_⟩
+      rintro ⟨_, h1, h2⟩
+      rcases hsz with h | ⟨hf, h⟩
+      · omega
+      · exact h (h2 hf)
+    · left
+      rw [if_neg hsz]
+      have h1 : (8 * n + 1) * n ≤ mem.length := by omega
+      have h2 : fit = true → mem.length % ((8 * n + 1) * n) = 0 := by
+        intro hf; by_cases h : mem.length % ((8 * n + 1) * n) = 0
+        · exact h
+        · exact absurd (Or.inr ⟨hf, h⟩) hsz
+      refine ⟨⟨_, rfl, hn, rfl, ?_, ?_, ?_, rfl⟩, hv, h1, h2⟩
+      · exact Nat.div_pos h1 hZ
+      · exact Nat.div_mul_le_self _ _
+      · intro hf
+        exact Nat.div_mul_cancel (Nat.dvd_of_mod_eq_zero (h2 hf))
+  · right
+    exact ⟨newBlocks_of_not_valid P bs mem fit hv, fun h => hv h.1⟩
 
 /-- regression witness (D4): the pre-repair test accepted bs = 3 and panicked on bs = 0 -/
 theorem legacy_accepts_invalid : acceptsLegacy 4096 3 100 false = some true ∧ acceptsLegacy 4096 0 100 false = none ∧
     ¬ ValidGeom 4096 3 ∧ ¬ ValidGeom 4096 0 := by
-  refine ⟨by decide, by decide, ?_, ?_⟩ <;> sorry
+  refine ⟨by decide, by decide, ?_, ?_⟩
+  · intro h
+    have := (validGeom_nat_iff 4096 3).mp h
+    revert this; decide
+  · exact not_validGeom_of_nonpos _ _ (by decide)
 
 /-- C17.ranges_disjoint: for an opened allocator, the data ranges of distinct valid indices are
 disjoint from each other and from every header range, and lie inside the buffer. -/
 theorem ranges_disjoint (b : B) (hbs : 0 < b.bs) (hfit : b.segs * b.segmSize ≤ b.mem.length)
-    (i j : Nat) (hi : i < b.count) (hj : j < b.count) (hij : i ≠ j) (s : Nat) (hs : s < b.segs) :
+    (i j : Nat) (hi : i < b.count) (hj : j < b.count) (hij : i ≠ j) (s : Nat) (_hs : s < b.segs) :
     ∃ oi oj, b.block i = .ok (oi, b.bs) ∧ b.block j = .ok (oj, b.bs) ∧
       (oi + b.bs ≤ oj ∨ oj + b.bs ≤ oi) ∧
       oi + b.bs ≤ b.mem.length ∧
-      (oi + b.bs ≤ (b.hdrRange s).1 ∨ (b.hdrRange s).1 + b.bs ≤ oi) :=
-  sorry
+      (oi + b.bs ≤ (b.hdrRange s).1 ∨ (b.hdrRange s).1 + b.bs ≤ oi) := by
+  refine ⟨_, _, b.block_nat hbs i hi, b.block_nat hbs j hj, ?_⟩
+  have hsi : i / (8 * b.bs) < b.segs := (idx_seg_lt hbs).mpr hi
+  have hsj : j / (8 * b.bs) < b.segs := (idx_seg_lt hbs).mpr hj
+  have hK : 0 < 8 * b.bs := by omega
+  have hri := Nat.mod_lt i hK
+  have hrj := Nat.mod_lt j hK
+  have ei := Nat.div_add_mod i (8 * b.bs)
+  have ej := Nat.div_add_mod j (8 * b.bs)
+  simp only [B.hdrRange]
+  have hZ : b.segmSize = 8 * b.bs * b.bs + b.bs := by simp [B.segmSize, Nat.add_mul]
+  generalize b.segmSize = Z at *
+  generalize i / (8 * b.bs) = si at *
+  generalize i % (8 * b.bs) = ri at *
+  generalize j / (8 * b.bs) = sj at *
+  generalize j % (8 * b.bs) = rj at *
+  -- q bounds
+  have qi1 : (ri + 1) * b.bs + b.bs ≤ 8 * b.bs * b.bs + b.bs := by
+    have := Nat.mul_le_mul_right b.bs (show ri + 1 ≤ 8 * b.bs by omega); omega
+  have qj1 : (rj + 1) * b.bs + b.bs ≤ 8 * b.bs * b.bs + b.bs := by
+    have := Nat.mul_le_mul_right b.bs (show rj + 1 ≤ 8 * b.bs by omega); omega
+  have qi0 : b.bs ≤ (ri + 1) * b.bs := by rw [Nat.add_mul]; omega
+  have qj0 : b.bs ≤ (rj + 1) * b.bs := by rw [Nat.add_mul]; omega
+  have hsegi := mul_lt_of_lt (Z := Z) hsi (Nat.le_refl Z)
+  refine ⟨?_, by omega, ?_⟩
+  · rcases Nat.lt_trichotomy si sj with h | h | h
+    · have := succ_mul_le (Z := Z) h; omega
+    · subst h
+      have hr : ri ≠ rj := by intro h; subst h; omega
+      rcases Nat.lt_or_gt_of_ne hr with h | h
+      · have := Nat.mul_le_mul_right b.bs (show ri + 1 + 1 ≤ rj + 1 by omega)
+        rw [Nat.add_mul _ 1, Nat.one_mul] at this; omega
+      · have := Nat.mul_le_mul_right b.bs (show rj + 1 + 1 ≤ ri + 1 by omega)
+        rw [Nat.add_mul _ 1, Nat.one_mul] at this; omega
+    · have := succ_mul_le (Z := Z) h; omega
+  · rcases Nat.lt_trichotomy s si with h | h | h
+    · have := succ_mul_le (Z := Z) h; omega
+    · subst h; omega
+    · have := succ_mul_le (Z := Z) h; omega
 
 /-- C17.refines_set: from any freshly opened allocator (any valid geometry, any byte content),
 every sequence of ArrangeBlock / FreeBlock / Block / Available / Count / reopen-on-the-same-bytes
 returns exactly what the set model returns: an index is never handed out while allocated (it is the
 least free one), ErrExhausted exactly when nothing is free, Available = Count − allocated, and
-reopening reproduces exactly the allocated set. No loop diverges. -/
-theorem refines_set (P : Nat) (hP : 0 < P) (bs : Int) (mem0 : List Nat) (hb : BytesOK mem0) (fit : Bool)
+reopening reproduces exactly the allocated set. No loop diverges.
+(The Spec keeps `alloc` as a list in allocation order, the abstraction lists it ascending, so the
+states agree up to permutation of `alloc`.) -/
+theorem refines_set (P : Nat) (_hP : 0 < P) (bs : Int) (mem0 : List Nat) (hb : BytesOK mem0) (fit : Bool)
     (b : B) (hopen : newBlocks P bs mem0 fit = .ok b) (ops : List Op) :
-    (runI P b ops).2 = (runS b.abs ops).2 ∧ (runI P b ops).1.abs = (runS b.abs ops).1 :=
-  sorry
+    (runI P b ops).2 = (runS b.abs ops).2 ∧
+      (runI P b ops).1.abs.count = (runS b.abs ops).1.count ∧
+      (runI P b ops).1.abs.bs = (runS b.abs ops).1.bs ∧
+      (runI P b ops).1.abs.segs = (runS b.abs ops).1.segs ∧
+      (runI P b ops).1.abs.alloc.Perm (runS b.abs ops).1.alloc := by
+  obtain ⟨hI, hR⟩ := open_ok hb hopen
+  obtain ⟨h1, _, h3⟩ := run_ok ops hI hR
+  exact ⟨h1, h3.count.symm, h3.bs.symm, h3.segs.symm, h3.perm⟩
 
 /-- Spec facts: arrange returns an index that was free; exhausted iff all allocated; free of a free block is ErrNotExist -/
 theorem spec_arrange_fresh (s : S) (hn : s.alloc.Nodup) (hr : ∀ i ∈ s.alloc, i < s.count) :
     match s.step .arrange with
     | (s', .idx i) => i ∉ s.alloc ∧ i < s.count ∧ s'.alloc = i :: s.alloc
     | (s', .err .exhausted) => s' = s ∧ s.alloc.length = s.count
-    | _ => False :=
-  sorry
+    | _ => False := by
+  unfold S.step
+  cases h : s.leastFree with
+  | some i =>
+    simp only
+    unfold S.leastFree at h
+    rw [List.find?_range_eq_some] at h
+    simp only [List.contains_eq_mem, Bool.not_eq_eq_eq_not, Bool.not_true, decide_eq_false_iff_not, List.mem_range] at h
+    exact ⟨h.1, h.2.1, trivial⟩
+  | none =>
+    simp only
+    unfold S.leastFree at h
+    rw [List.find?_range_eq_none] at h
+    refine ⟨trivial, ?_⟩
+    have hp : s.alloc.Perm (List.range s.count) := by
+      rw [List.perm_ext_iff_of_nodup hn List.nodup_range]
+      intro a
+      constructor
+      · intro ha; exact List.mem_range.mpr (hr a ha)
+      · intro ha; have := h a (List.mem_range.mp ha); simpa using this
+    simpa using hp.length_eq
 
 /-- C17.reopen_same_state: opening the bytes of any reachable state yields the same allocated set
 and the same Available. -/
-theorem reopen_same_state (P : Nat) (hP : 0 < P) (bs : Int) (mem0 : List Nat) (hb : BytesOK mem0) (fit : Bool)
+theorem reopen_same_state (P : Nat) (_hP : 0 < P) (bs : Int) (mem0 : List Nat) (hb : BytesOK mem0) (fit : Bool)
     (b : B) (hopen : newBlocks P bs mem0 fit = .ok b) (ops : List Op) :
     let b1 := (runI P b ops).1
-    ∃ b2, newBlocks P b1.bs b1.mem false = .ok b2 ∧ b2.abs = b1.abs ∧ b2.avail = b1.avail :=
-  sorry
+    ∃ b2, newBlocks P b1.bs b1.mem false = .ok b2 ∧ b2.abs = b1.abs ∧ b2.avail = b1.avail := by
+  intro b1
+  obtain ⟨hI, hR⟩ := open_ok hb hopen
+  obtain ⟨_, h2, h3⟩ := run_ok ops hI hR
+  exact ⟨_, reopen_eq h2, rfl, (avail_eq_countFree h2 h3).symm⟩
 
-/-- the user data ranges are never written by the allocator: bytes outside all header ranges never change -/
-theorem data_untouched (P : Nat) (b : B) (hbs : 0 < b.bs) (op : Op) (k : Nat)
-    (hk : ∀ s, s < b.segs → ¬ ((b.hdrRange s).1 ≤ k ∧ k < (b.hdrRange s).1 + b.bs)) :
-    (b.step P op).1.mem.getD k 0 = b.mem.getD k 0 :=
-  sorry
+/-- the user data ranges are never written by the allocator: in every reachable state, bytes
+outside all header ranges never change -/
+theorem data_untouched (P : Nat) (_hP : 0 < P) (bs : Int) (mem0 : List Nat) (hb : BytesOK mem0) (fit : Bool)
+    (b0 : B) (hopen : newBlocks P bs mem0 fit = .ok b0) (ops : List Op) (op : Op) (k : Nat) :
+    let b := (runI P b0 ops).1
+    (∀ s, s < b.segs → ¬ ((b.hdrRange s).1 ≤ k ∧ k < (b.hdrRange s).1 + b.bs)) →
+    (b.step P op).1.mem.getD k 0 = b.mem.getD k 0 := by
+  intro b hk
+  obtain ⟨hI, hR⟩ := open_ok hb hopen
+  obtain ⟨_, h2, _⟩ := run_ok ops hI hR
+  exact step_mem_outside h2 op k hk
 
 example : ∃ b, newBlocks 4096 1 (List.replicate 20 0) false = .ok b ∧ b.segs = 2 ∧ b.avail = 16 := by
   refine ⟨_, rfl, ?_, ?_⟩ <;> decide
